@@ -369,7 +369,7 @@ Fixpoint seg_loop (fuel : nat) (addr e : N) (nilc : bool) (m : macct) : res macc
 Definition seg (start e : N) (nilc : bool) (m : macct) : res macct :=
   seg_loop (N.to_nat ((e - start) / zP + 2)) start e nilc m.
 
-Record iout := { io_c : gslice; io_pages : N; io_made : N; io_hp : N; io_hl : N; io_alloc : N }.
+Record iout := { io_c : gslice; io_pages : N; io_made : N; io_hp : N; io_hl : N; io_alloc : N; io_iv : list (N * N) }.
 
 Definition SZ_PAGE : N := 4096 + 32.   (* make([]byte, ZP) + &Page{} *)
 Definition SZ_MAP : N := 48.           (* make(map[uint32]*Page) *)
@@ -399,7 +399,7 @@ Definition single_initializer_go (fix_arg : bool) (p : gslice) (alen : N) : res 
   bind (seg ar_start ar_end false m5) (fun m6 =>
   bind (seg ar_end ar_pad true m6) (fun m7 =>
   Ok {| io_c := sb_c b; io_pages := m_size m7; io_made := m_made m7; io_hp := rw_pad; io_hl := st_start;
-        io_alloc := SZ_MAP + m_made m7 * SZ_PAGE |})))))))).
+        io_alloc := SZ_MAP + m_made m7 * SZ_PAGE; io_iv := m_iv m7 |})))))))).
 
 (* ---- the loading half of Psi_M (argument_invocation.go): Y, then deblob of the code it returns ---- *)
 Definition psi_m_load (fx : bool) (p : gslice) (alen : N) : res (iout * gprog) :=
@@ -432,3 +432,25 @@ Definition alloc_bound_of (p : gslice) (alen : N) : N :=
   C_BLOB * g_len p + K_FIXED + declared p alen + declared p alen / 128.
 (* the same for a bare program blob (DeBlobProgramCode alone, the machine host call) *)
 Definition deblob_bound_of (d : gslice) : N := C_BLOB * g_len d + K_FIXED.
+
+(* ---- isReadable / isWriteable (argument_invocation.go): the guest-range check on raw 64-bit register values ----
+   acc p = page p passes the access test of the caller (mapped and not inaccessible, resp. read-write).
+   fixr = true : offset > 1<<32 || start > (1<<32)-offset   (the code as it is)
+   fixr = false: start+offset > 1<<32 with the sum in uint64  (a tempting simplification: it wraps) *)
+(* cnt iterations of the page loop from page p (N.iter: no unary number is built for a range of 2^20 pages) *)
+Definition pages_step (acc : N -> bool) (st : bool * N) : bool * N := (fst st && acc (snd st), snd st + 1).
+Definition pages_ok (acc : N -> bool) (cnt : N) (p : N) : bool := fst (N.iter cnt (pages_step acc) (true, p)).
+
+Definition range_ok_go (fixr : bool) (acc : N -> bool) (start off : N) : bool :=
+  if off =? 0 then true
+  else if (if fixr then (4294967296 <? off) || (4294967296 - off <? start) else 4294967296 <? u64 (start + off))
+  then false
+  else
+    let sp := u32 (start / zP) in
+    let ep := u32 (u64 (u64 (start + off) + 18446744073709551616 - 1) / zP) in
+    (* for p := startPage; p <= endPage; p++ *)
+    pages_ok acc (ep + 1 - sp) sp.
+
+(* R (A.41): the length of the output of a halt with registers 7, 8 = (start, len): readRAM makes [len] bytes *)
+Definition halt_out_len (fixr : bool) (acc : N -> bool) (start len : N) : N :=
+  if range_ok_go fixr acc start len then len else 0.
